@@ -619,6 +619,13 @@ class ExprMixin:
                 return self.arr_attr(v, h, attr, st, fr, node)
             if isinstance(h, (HList, HViewList)):
                 return Bound(v, Prim("list." + attr))
+        from .nplib import DTypeV
+        if isinstance(v, DTypeV):
+            if attr == "names":
+                return v.names
+            if attr == "fields":
+                return None if v.names is None else {n: True for n in v.names}
+            raise Unsupported("dtype attribute ." + attr, node)
         if isinstance(v, Prim):
             return Prim(v.name + "." + attr)
         if isinstance(v, ModuleExprT):
